@@ -210,14 +210,17 @@ CLAIMED["C16"] = {
 
 CLAIMED["C03"] = {
     "engine": "E3 linear guard entailment over MIR (+ value-set domain for the byte state machines)",
-    "technique": "abstract interpretation of MIR with linear symbolic values and path facts; obligations generated from every Assert terminator and unchecked/panicking call; Fourier-Motzkin entailment; inductive struct invariants; counter lemmas for loops",
+    "technique": "abstract interpretation of MIR with linear symbolic values and path facts; obligations generated from every Assert terminator and unchecked/panicking call; Fourier-Motzkin entailment; inductive struct invariants; counter lemmas for loops; shortest-path slack lemma on the extracted tokenizer transducer; rustc compile_fail witnesses for encapsulation",
     "text": ("Gives every one of the ~146 obligation sites of the library's MIR (bounds checks, add/sub/shift overflow asserts, preconditions of "
              "get_unchecked*, range indexing, copy_within, copy_nonoverlapping, split_at_mut, unwrap_unchecked, reachable panics) a verdict for all "
              "inputs and all buffer sizes: discharged by entailment from the guards on the path, std/helper contracts (the helpers' own contracts are "
              "proved from their MIR) and three struct invariants that are themselves proved inductively; or assumed (14 sites resting on buffer-content "
              "invariants: NUL termination of history entries, the tokenizer's insert <= cursor_pos, one debug assertion delegated to C02, two sites "
              "unreachable because text_range is only instantiated with RangeFrom - that condition is re-checked on every run) - printed, never counted "
-             "as proved; anything else - including a site no analysed path reaches - is a violation. The Utf8Accum and encode_utf8 obligations are decided in the value-set domain over the "
+             "as proved; anything else - including a site no analysed path reaches - is a violation. The tokenizer's output-cursor sites "
+             "are proved by a slack lemma on its extracted transducer (C07). Encapsulation witnesses (compile_fail doc tests with compiling "
+             "twins, generated per field for the types handed to application code) show that user code cannot reach the state the unchecked "
+             "operations rely on. The Utf8Accum and encode_utf8 obligations are decided in the value-set domain over the "
              "extracted reachable decoder states / in the callers' context. Not decided: UTF-8 validity preconditions (C02), the content invariants."),
     "design_ref": "DESIGN.md §4 C03, §2 E3",
     "note": TB + " Assumes Buffer::len is stable for a given buffer (true for the two impls in buffer.rs) and that all sizes are <= isize::MAX.",
